@@ -18,6 +18,24 @@ def run(ck: Check):
         if nums != list(range(1, len(nums) + 1)) and run_.exc not in ("Hang", "CapHit"):
             ck_.violation(f"temp dir of a re-used Lithium object is not numbered 1..k without gaps/duplicates: {nums}",
                           {"session": ctx.get("session"), "files": [n for n, _, _ in run_.temp]})
+            return
+        if run_.exc in ("Hang", "CapHit") or "offset" not in ctx:
+            return
+        # each run of the session: as many tests reported as were run; the i-th test of the whole session is handed
+        # prefix i and what it saw is in i-<tag>
+        off, bad = ctx["offset"], []
+        got = {n: b for n, b, _ in run_.temp}
+        if run_.test_count != run_.tests:
+            bad.append(f"lithium counts {run_.test_count} test(s) for this run, the test ran {run_.tests} time(s)")
+        for e, (k, seen, a) in zip([e for e in run_.events if e.startswith("T ")], run_.seen):
+            pnum = e.split()[2]
+            if pnum != str(off + k):
+                bad.append(f"test {off + k} of the session was handed prefix {pnum}")
+            elif a in "YN" and got.get(f"{pnum}-{'interesting' if a == 'Y' else 'boring'}") != seen:
+                bad.append(f"{pnum}-{'interesting' if a == 'Y' else 'boring'} does not hold what that test saw")
+        if bad:
+            ck_.violation(f"re-used Lithium object, run {ctx['strategy']} after {off} earlier test(s): " + "; ".join(bad[:3]),
+                          {"session": ctx.get("session"), "files": sorted(got)})
     session_universe(ck, numbering, quick=ck.tier == "quick")
     # a temp dir given by the user that still holds numbered files of an earlier session: test i is handed prefix i and
     # its copy is written as i-<tag> (overwriting a stale file of that name); stale files with other names are not ours
